@@ -17,7 +17,7 @@
 (*   FixGoi    get_or_insert entries are static and a reload skips static  *)
 (*             entries (D7)                                                *)
 (***************************************************************************)
-EXTENDS AMTypes
+EXTENDS DepsGraph
 
 CONSTANTS
     Keys,        \* the keys a scenario may touch
@@ -27,7 +27,8 @@ CONSTANTS
     InitSrcs,    \* set of initial sources: functions Files -> content (None = absent)
     InitDirs,    \* explicit directories present initially
     HasReloader, \* the cache was built with a hot-reloadable source
-    FixGoi
+    FixGoi,
+    OrderFirst   \* tie-break of the pass order among unordered assets (both are real orders)
 
 VARIABLES
     env,        \* the environment record of AMTypes (cache, source, messages, counters)
@@ -38,34 +39,23 @@ VARIABLES
     ver,        \* ver[f]: number of edits of source entry f         (history)
     handled,    \* handled[f]: ver[f] when f was last dequeued as known (history)
     d8,         \* TRUE once a pass rewired an asset onto one reloaded later in it
+    od,         \* TRUE once the outcome of a pass depended on an order the code does not promise
     last        \* result of the last call (what the client observed)
 
-vars == <<env, graph, toReload, evq, mode, ver, handled, d8, last>>
+vars == <<env, graph, toReload, evq, mode, ver, handled, d8, od, last>>
 
-NoGraph == [d \in {} |-> 0]
-Node(typ, deps, rdeps) == [typ |-> typ, deps |-> deps, rdeps |-> rdeps]
 
-Entries == {FileE(f[1], f[2]) : f \in Files} \cup {DirE(d) : d \in DirsU \cup {""}}
+Entries == {FileE(f[1], f[2]) : f \in Files} \cup {DirE(d) : d \in AllIds}
+(* creating or deleting an entry changes the listing of its directory (and, through *)
+(* implied directories, possibly of the directories above it)                       *)
+BumpDirs(v, id) == [e \in DOMAIN v |-> IF e.k = "dir" /\ e.id \in Ancestors(id) THEN v[e] + 1 ELSE v[e]]
 
 EmptyEnv(src0, dirs0) ==
     [cache |-> [k \in Keys |-> None], src |-> src0, dirs |-> dirs0, baddirs |-> [d \in {} |-> "x"],
      hasR |-> HasReloader, msgs |-> <<>>, gen |-> 1, nread |-> 0, nrdir |-> 0, nldr |-> 0,
-     fault |-> None, dropped |-> {}, reads |-> <<>>, fixGoi |-> FixGoi]
+     fault |-> None, dropped |-> {}, reads |-> <<>>, fixGoi |-> FixGoi, unrec |-> {}, stale |-> {}, fhit |-> FALSE, taint |-> {}]
 
 -----------------------------------------------------------------------------
-(* DepsGraph::insert (dependencies.rs:88-121) *)
-GraphInsert(g, key, deps) ==
-    LET withR == [d \in DOMAIN g \cup deps \cup {key} |->
-                    IF d \in DOMAIN g
-                    THEN IF d \in deps THEN [g[d] EXCEPT !.rdeps = @ \cup {key}] ELSE g[d]
-                    ELSE Node(FALSE, {}, IF d \in deps THEN {key} ELSE {})]
-        old   == IF key \in DOMAIN g THEN g[key].deps ELSE {}
-        removed == IF key \in DOMAIN g THEN old \ deps ELSE {}
-    IN [d \in DOMAIN withR |->
-          IF d = key THEN [withR[d] EXCEPT !.typ = TRUE, !.deps = deps]
-          ELSE IF d \in removed THEN [withR[d] EXCEPT !.rdeps = @ \ {key}]
-          ELSE withR[d]]
-
 RECURSIVE DrainMsgs(_, _, _)
 (* process every pending cache message in order; returns [g, tr] *)
 DrainMsgs(msgs, g, tr) ==
@@ -73,39 +63,6 @@ DrainMsgs(msgs, g, tr) ==
     ELSE LET m == Head(msgs) IN
          IF "clear" \in DOMAIN m THEN DrainMsgs(Tail(msgs), g, {})
          ELSE DrainMsgs(Tail(msgs), GraphInsert(g, AssetD(m.key), m.deps), tr)
-
-(* assets reachable from the changed entries through reverse dependencies *)
-RECURSIVE Reach(_, _, _)
-Reach(g, frontier, seen) ==
-    IF frontier = {} THEN seen
-    ELSE LET nxt == UNION {g[d].rdeps : d \in frontier \cap DOMAIN g} \ seen
-         IN Reach(g, nxt, seen \cup nxt)
-
-Affected(g, changed) == {d \in Reach(g, changed \cap DOMAIN g, {}) : d.k = "asset"}
-
-TypeSeq == <<"L0", "L1", "L2", "L3", "L4", "L5", "L6", "L7", "N0", "N1", "N2", "N3", "N4", "N5",
-             "DL0", "DL1", "DL2", "RL0", "RL1", "S0">>
-IdxOf(seq, x) == CHOOSE i \in 1..Len(seq) : seq[i] = x
-(* any fixed total order on keys will do *)
-KeyLess(a, b) == \/ IdxOf(TypeSeq, a.ty) < IdxOf(TypeSeq, b.ty)
-                 \/ (a.ty = b.ty /\ IdxOf(IdSeq, a.id) < IdxOf(IdSeq, b.id))
-
-(* A dependencies-first order of the affected assets w.r.t. the graph as it  *)
-(* is when the pass starts (what topological_sort_from yields on a DAG).     *)
-RECURSIVE TopoOrder(_, _, _)
-TopoOrder(g, remaining, acc) ==
-    IF remaining = {} THEN acc
-    ELSE LET ready == {d \in remaining : g[d].deps \cap remaining = {}}
-             pool  == IF ready = {} THEN remaining ELSE ready     \* cycle: any
-             pick  == CHOOSE d \in pool : \A o \in pool : o = d \/ KeyLess(d, o)
-         IN TopoOrder(g, remaining \ {pick}, Append(acc, pick))
-
-(* closure of dependencies in the old graph *)
-RECURSIVE DepClosure(_, _, _)
-DepClosure(g, frontier, seen) ==
-    IF frontier = {} THEN seen
-    ELSE LET nxt == UNION {g[d].deps : d \in frontier \cap DOMAIN g} \ seen
-         IN DepClosure(g, nxt, seen \cup nxt)
 
 (* DepsGraph::reload + AnyCache::reload_untyped for one key *)
 ReloadOne(E, g, d) ==
@@ -117,33 +74,41 @@ ReloadOne(E, g, d) ==
          THEN LET old == r.E.cache[k]
                   E2  == [r.E EXCEPT !.cache[k] = [old EXCEPT !.val = r.val, !.rid = @ + 1, !.tok = r.tok],
                                      !.dropped = @ \cup {old.tok}]
-              IN [E |-> E2, g |-> GraphInsert(g, d, r.deps), ok |-> TRUE, ran |-> TRUE, deps |-> r.deps]
-         ELSE [E |-> r.E, g |-> g, ok |-> FALSE, ran |-> TRUE]
+              IN [E |-> [E2 EXCEPT !.stale = @ \ {k}], g |-> GraphInsert(g, d, r.deps), ok |-> TRUE, ran |-> TRUE, deps |-> r.deps]
+         ELSE \* a failed reload keeps value, id and dependencies; the asset recovers at its next successful reload
+              [E |-> [r.E EXCEPT !.stale = @ \cup {k}], g |-> g, ok |-> FALSE, ran |-> TRUE]
 
 (* The order of a pass is computed on the graph as it is when the pass starts *)
 (* (g0).  When a reload makes k depend on an asset that is reloaded in the    *)
 (* same pass and that the old graph did not order before k, the outcome       *)
 (* depends on the (hash) iteration order of the real sort: flagged `d8`.      *)
-RECURSIVE PassLoop(_, _, _, _, _, _)
-PassLoop(E, g, order, i, flag, g0) ==
-    IF i > Len(order) THEN [E |-> E, g |-> g, d8 |-> flag]
-    ELSE LET r == ReloadOne(E, g, order[i])
+(* `od`: the outcome depends on an order the code does not promise and the    *)
+(* property does not constrain: a reload looked an asset of the same pass up   *)
+(* inside no_record, or a fault is armed while the pass has unordered members. *)
+RECURSIVE PassLoop(_, _, _, _, _, _, _)
+PassLoop(E, g, order, i, flag, oflag, g0) ==
+    IF i > Len(order) THEN [E |-> E, g |-> g, d8 |-> flag, od |-> oflag]
+    ELSE LET r == ReloadOne([E EXCEPT !.unrec = {}], g, order[i])
              inPass == {order[j] : j \in 1..Len(order)} \ {order[i]}
              before == DepClosure(g0, {order[i]}, {})
              risky == r.ok /\ ((r.deps \cap inPass) \ before) # {}
-         IN PassLoop(r.E, r.g, order, i + 1, flag \/ risky, g0)
+             blind == (r.E.unrec \cap inPass) # {}
+         IN PassLoop(r.E, r.g, order, i + 1, flag \/ risky, oflag \/ blind, g0)
+
+Unordered(g, S) == \E a \in S, b \in S : a # b /\ a \notin DepClosure(g, {b}, {}) /\ b \notin DepClosure(g, {a}, {})
 
 (* run_update *)
 RunPass(E, g, changed) ==
-    LET order == TopoOrder(g, Affected(g, changed), <<>>) IN
-    PassLoop(E, g, order, 1, FALSE, g)
+    LET aff == Affected(g, changed)
+        order == TopoOrderBy(g, aff, <<>>, OrderFirst) IN
+    PassLoop(E, g, order, 1, FALSE, E.fault # None /\ Unordered(g, aff), g)
 
 -----------------------------------------------------------------------------
 Init ==
     /\ \E s0 \in InitSrcs : env = EmptyEnv(s0, InitDirs)
     /\ graph = NoGraph /\ toReload = {} /\ evq = <<>> /\ mode = "local"
     /\ ver = [e \in Entries |-> 0] /\ handled = [e \in Entries |-> 0]
-    /\ d8 = FALSE
+    /\ d8 = FALSE /\ od = FALSE
     /\ last = [op |-> "init"]
 
 ErrView(err) == err      \* errors are already plain records
@@ -157,29 +122,29 @@ Load(k) ==
     /\ LET r == LoadKey(env, RecOff, k, "load", Scripts) IN
         /\ env' = r.E
         /\ last' = [Res("load", r) EXCEPT !.op = "load"] @@ [ty |-> k.ty, id |-> k.id]
-    /\ UNCHANGED <<graph, toReload, evq, mode, ver, handled, d8>>
+    /\ UNCHANGED <<graph, toReload, evq, mode, ver, handled, d8, od>>
 
 LoadOwned(k) ==
     /\ TypeInfo[k.ty].kind # "stor"
     /\ LET r == LoadKey(env, RecOff, k, "owned", Scripts) IN
         /\ env' = IF r.ok THEN [r.E EXCEPT !.dropped = @ \cup {r.tok}] ELSE r.E
         /\ last' = Res("owned", r) @@ [ty |-> k.ty, id |-> k.id]
-    /\ UNCHANGED <<graph, toReload, evq, mode, ver, handled, d8>>
+    /\ UNCHANGED <<graph, toReload, evq, mode, ver, handled, d8, od>>
 
 GetCached(k) ==
     /\ last' = [op |-> "get", ty |-> k.ty, id |-> k.id, ok |-> env.cache[k] # None,
                 val |-> IF env.cache[k] # None THEN env.cache[k].val ELSE None]
-    /\ UNCHANGED <<env, graph, toReload, evq, mode, ver, handled, d8>>
+    /\ UNCHANGED <<env, graph, toReload, evq, mode, ver, handled, d8, od>>
 
 Contains(k) ==
     /\ last' = [op |-> "contains", ty |-> k.ty, id |-> k.id, ok |-> env.cache[k] # None]
-    /\ UNCHANGED <<env, graph, toReload, evq, mode, ver, handled, d8>>
+    /\ UNCHANGED <<env, graph, toReload, evq, mode, ver, handled, d8, od>>
 
 GetOrInsert(k, n) ==
     /\ LET s == Instr(env, RecOff, k, IGoi(k.ty, k.id, n), Scripts) IN
         /\ env' = s.E
         /\ last' = [op |-> "goi", ty |-> k.ty, id |-> k.id, n |-> n, ok |-> TRUE, val |-> s.obs.v]
-    /\ UNCHANGED <<graph, toReload, evq, mode, ver, handled, d8>>
+    /\ UNCHANGED <<graph, toReload, evq, mode, ver, handled, d8, od>>
 
 (* remove / take / clear need &mut: only in local mode (a 'static cache is never exclusive) *)
 Remove(k) ==
@@ -187,7 +152,7 @@ Remove(k) ==
     /\ env' = IF env.cache[k] = None THEN env
               ELSE [env EXCEPT !.cache[k] = None, !.dropped = @ \cup {env.cache[k].tok}]
     /\ last' = [op |-> "remove", ty |-> k.ty, id |-> k.id, ok |-> env.cache[k] # None]
-    /\ UNCHANGED <<graph, toReload, evq, mode, ver, handled, d8>>
+    /\ UNCHANGED <<graph, toReload, evq, mode, ver, handled, d8, od>>
 
 Take(k) ==
     /\ mode = "local"
@@ -195,7 +160,7 @@ Take(k) ==
               ELSE [env EXCEPT !.cache[k] = None, !.dropped = @ \cup {env.cache[k].tok}]
     /\ last' = [op |-> "take", ty |-> k.ty, id |-> k.id, ok |-> env.cache[k] # None,
                 val |-> IF env.cache[k] # None THEN env.cache[k].val ELSE None]
-    /\ UNCHANGED <<graph, toReload, evq, mode, ver, handled, d8>>
+    /\ UNCHANGED <<graph, toReload, evq, mode, ver, handled, d8, od>>
 
 Clear ==
     /\ mode = "local"
@@ -203,69 +168,72 @@ Clear ==
                           !.dropped = @ \cup {env.cache[k].tok : k \in {x \in Keys : env.cache[x] # None}},
                           !.msgs = IF env.hasR THEN Append(@, [clear |-> TRUE]) ELSE @]
     /\ last' = [op |-> "clear"]
-    /\ UNCHANGED <<graph, toReload, evq, mode, ver, handled, d8>>
+    /\ UNCHANGED <<graph, toReload, evq, mode, ver, handled, d8, od>>
 
 (* the environment ------------------------------------------------------- *)
 Edit(f, c) ==
     /\ env.src[f] # c
     /\ env' = [env EXCEPT !.src[f] = c]
-    /\ ver' = [ver EXCEPT ![FileE(f[1], f[2])] = @ + 1]
+    /\ LET v1 == [ver EXCEPT ![FileE(f[1], f[2])] = @ + 1] IN
+        ver' = IF (env.src[f] = None) # (c = None) THEN BumpDirs(v1, f[1]) ELSE v1
     /\ last' = [op |-> "edit", id |-> f[1], ext |-> f[2], c |-> c]
-    /\ UNCHANGED <<graph, toReload, evq, mode, handled, d8>>
+    /\ UNCHANGED <<graph, toReload, evq, mode, handled, d8, od>>
 
 MkDir(d) ==
     /\ d \notin env.dirs
     /\ env' = [env EXCEPT !.dirs = @ \cup {d}]
+    /\ ver' = BumpDirs(ver, d)
     /\ last' = [op |-> "mkdir", id |-> d]
-    /\ UNCHANGED <<graph, toReload, evq, mode, ver, handled, d8>>
+    /\ UNCHANGED <<graph, toReload, evq, mode, handled, d8, od>>
 
 RmDir(d) ==
     /\ d \in env.dirs
     /\ env' = [env EXCEPT !.dirs = @ \ {d}]
+    /\ ver' = BumpDirs(ver, d)
     /\ last' = [op |-> "rmdir", id |-> d]
-    /\ UNCHANGED <<graph, toReload, evq, mode, ver, handled, d8>>
+    /\ UNCHANGED <<graph, toReload, evq, mode, handled, d8, od>>
 
 Arm(what, at, kind) ==
     /\ env.fault = None
     /\ env' = [env EXCEPT !.fault = [what |-> what, at |-> at, kind |-> kind],
                           !.nread = 0, !.nrdir = 0, !.nldr = 0]
     /\ last' = [op |-> "arm", what |-> what, at |-> at, kind |-> kind]
-    /\ UNCHANGED <<graph, toReload, evq, mode, ver, handled, d8>>
+    /\ UNCHANGED <<graph, toReload, evq, mode, ver, handled, d8, od>>
 
 Disarm ==
     /\ env.fault # None
     /\ env' = [env EXCEPT !.fault = None]
     /\ last' = [op |-> "disarm"]
-    /\ UNCHANGED <<graph, toReload, evq, mode, ver, handled, d8>>
+    /\ UNCHANGED <<graph, toReload, evq, mode, ver, handled, d8, od>>
 
 Send(batch) ==
     /\ HasReloader
     /\ evq' = Append(evq, batch)
     /\ last' = [op |-> "send", batch |-> batch]
-    /\ UNCHANGED <<env, graph, toReload, mode, ver, handled, d8>>
+    /\ UNCHANGED <<env, graph, toReload, mode, ver, handled, d8, od>>
 
 (* the reloader ----------------------------------------------------------- *)
 (* Sync: the reloader has drained its cache messages and dequeued every     *)
 (* batch sent so far (handle_events), in static mode running a pass after   *)
 (* each batch.                                                              *)
-RECURSIVE TakeAll(_, _, _, _, _, _)
-TakeAll(q, E, g, tr, hd, flag) ==
-    IF q = <<>> THEN [E |-> E, g |-> g, tr |-> tr, hd |-> hd, d8 |-> flag]
+RECURSIVE TakeAll(_, _, _, _, _, _, _)
+TakeAll(q, E, g, tr, hd, flag, oflag) ==
+    IF q = <<>> THEN [E |-> E, g |-> g, tr |-> tr, hd |-> hd, d8 |-> flag, od |-> oflag]
     ELSE LET dm == DrainMsgs(E.msgs, g, tr)
              E1 == [E EXCEPT !.msgs = <<>>]
              known == {e \in Head(q) : e \in DOMAIN dm.g}
              tr1 == dm.tr \cup known
              hd1 == [e \in DOMAIN hd |-> IF e \in known THEN ver[e] ELSE hd[e]]
          IN IF mode = "static"
-            THEN LET p == RunPass(E1, dm.g, tr1) IN TakeAll(Tail(q), p.E, p.g, {}, hd1, flag \/ p.d8)
-            ELSE TakeAll(Tail(q), E1, dm.g, tr1, hd1, flag)
+            THEN LET p == RunPass(E1, dm.g, tr1) IN TakeAll(Tail(q), p.E, p.g, {}, hd1, flag \/ p.d8, oflag \/ p.od)
+            ELSE TakeAll(Tail(q), E1, dm.g, tr1, hd1, flag, oflag)
 
 SyncFrom(q) ==
     /\ HasReloader
-    /\ LET t  == TakeAll(q, env, graph, toReload, handled, d8)
+    /\ LET t  == TakeAll(q, env, graph, toReload, handled, d8, od)
            dm == DrainMsgs(t.E.msgs, t.g, t.tr) IN
         /\ env' = [t.E EXCEPT !.msgs = <<>>]
-        /\ graph' = dm.g /\ toReload' = dm.tr /\ handled' = t.hd /\ d8' = t.d8
+        /\ graph' = dm.g /\ toReload' = dm.tr /\ handled' = t.hd /\ d8' = t.d8 /\ od' = t.od
     /\ evq' = <<>>
     /\ UNCHANGED <<mode, ver>>
 
@@ -277,24 +245,24 @@ Notify(batch) == SyncFrom(Append(evq, batch)) /\ last' = [op |-> "notify", batch
 (* hot_reload(): Ptr message; cache messages sent before it are applied first *)
 HotReload ==
     /\ evq = <<>>          \* the client synchronised first (DESIGN.md: notified = dequeued)
-    /\ IF ~HasReloader THEN UNCHANGED <<env, graph, toReload, d8>>
+    /\ IF ~HasReloader THEN UNCHANGED <<env, graph, toReload, d8, od>>
        ELSE LET dm == DrainMsgs(env.msgs, graph, toReload)
                 E1 == [env EXCEPT !.msgs = <<>>] IN
             IF mode = "local"
             THEN LET p == RunPass(E1, dm.g, dm.tr) IN
-                 /\ env' = p.E /\ graph' = p.g /\ toReload' = {} /\ d8' = (d8 \/ p.d8)
-            ELSE /\ env' = E1 /\ graph' = dm.g /\ toReload' = dm.tr /\ UNCHANGED d8
+                 /\ env' = p.E /\ graph' = p.g /\ toReload' = {} /\ d8' = (d8 \/ p.d8) /\ od' = (od \/ p.od)
+            ELSE /\ env' = E1 /\ graph' = dm.g /\ toReload' = dm.tr /\ UNCHANGED <<d8, od>>
     /\ last' = [op |-> "hot_reload"]
     /\ UNCHANGED <<evq, mode, ver, handled>>
 
 (* enhance_hot_reloading(): Static message; switches the reloader to static mode and runs a pass *)
 Enhance ==
     /\ evq = <<>>
-    /\ IF ~HasReloader \/ mode = "static" THEN UNCHANGED <<env, graph, toReload, mode, d8>>
+    /\ IF ~HasReloader \/ mode = "static" THEN UNCHANGED <<env, graph, toReload, mode, d8, od>>
        ELSE LET dm == DrainMsgs(env.msgs, graph, toReload)
                 E1 == [env EXCEPT !.msgs = <<>>]
                 p  == RunPass(E1, dm.g, dm.tr) IN
-            /\ env' = p.E /\ graph' = p.g /\ toReload' = {} /\ d8' = (d8 \/ p.d8) /\ mode' = "static"
+            /\ env' = p.E /\ graph' = p.g /\ toReload' = {} /\ d8' = (d8 \/ p.d8) /\ od' = (od \/ p.od) /\ mode' = "static"
     /\ last' = [op |-> "enhance"]
     /\ UNCHANGED <<evq, ver, handled>>
 
@@ -340,12 +308,16 @@ FileDepsOf(d, seen) ==
 
 Quiet == env.msgs = <<>> /\ evq = <<>> /\ (mode = "static" \/ toReload = {})
 
-Converged ==
-    (Quiet /\ ~d8) =>
+ConvergedIf(guard) ==
+    (Quiet /\ guard) =>
       \A k \in Keys :
         (/\ env.cache[k] # None /\ env.cache[k].dyn /\ env.cache[k].origin = "load"
-         /\ AssetD(k) \in DOMAIN graph /\ graph[AssetD(k)].typ
+         /\ AssetD(k) \in DOMAIN graph /\ graph[AssetD(k)].typ /\ k \notin env.stale /\ k \notin env.taint
          /\ \A e \in FileDepsOf(AssetD(k), {}) : e \in Entries => ~Pending(e))
         => LET f == Fresh(env, k, Scripts) IN f.ok => env.cache[k].val = f.val
+
+Converged == ConvergedIf(~d8 /\ ~od)
+(* negative control: without the d8 guard the as-built order violates convergence (D8) *)
+ConvergedStrict == ConvergedIf(~od)
 
 =============================================================================
